@@ -144,7 +144,18 @@ fn build(input: &str, copies: usize, k: usize, r: &mut Rng, c: &Ctxt) -> Option<
                 let p = r.usize_below(params.len() + 1);
                 params.insert(p, o);
             }
-            headers.push((b"authorization".to_vec(), format!("AWS4-HMAC-SHA256 {}", params.join(", ")).into_bytes()));
+            // empty list elements between parameters are skipped, they do not end the list
+            let mut joined = String::new();
+            for (pi, p) in params.iter().enumerate() {
+                if pi > 0 {
+                    joined.push_str(r.pick_str(&[", ", ",", ",, ", ", , ", " ,,, "]));
+                }
+                joined.push_str(p);
+            }
+            if r.chance(1, 6) {
+                joined.push(',');
+            }
+            headers.push((b"authorization".to_vec(), format!("AWS4-HMAC-SHA256 {}", joined).into_bytes()));
             documented = copies - 1;
         }
         "x-amz-date-header" => {
